@@ -63,6 +63,10 @@ CHECKS = {
    technique="round-trip monitor with per-type generators: typed accessor and Scan on every path, backup copy (GETENTRY RC + white-box), after migration to a joined member; rejection monitor with entry census and neighbour re-verification",
    text="Generated values of every supported type (all integer widths at their extremes, float32/64 incl. ±0, ±Inf, NaN, denormals, 17-digit values, bool, strings and byte slices with NUL/CRLF/RESP-looking content, 64 KiB and sizes around the table size, time.Time with zones/nanoseconds/extreme years, durations, a BinaryMarshaler type) under keys of length 0..255 (binary, CR/LF, spaces) are written through embedded owner / non-owner / cluster client on a 2-member ReplicaCount=2 cluster (table size x WriteQuorum), read back through every path with the typed accessor and Scan, compared on the backup copy, and again from every member after a third member joined and the partitions were balanced. Keys of 256+ bytes and entries that cannot fit a table must be rejected with the documented errors on every path with nothing stored on any member (census), and all previously stored neighbours re-verified.",
    note="Round trip through olric's own encoder/decoder (a consistently wrong pair would go unseen); years outside 0..9999, nil values and async replication are out of scope; loss-type observations during a membership flap are inconclusive."),
+ "C02": dict(category="fault_enumeration", design="DESIGN.md §3 C02",
+   technique="fault enumeration (member subsets x graceful/abrupt x idle/between/hook-timed mid-operation crash) with a per-key acknowledgement log oracle read through every survivor, post-fault sequential model check",
+   text="Clusters of 3-5 members with ReplicaCount 2-3: 180 acknowledged operations on 60 keys through all entry paths, then up to R-1 members (every single member incl. the coordinator, every pair for R=3) are stopped gracefully or abruptly (no leave broadcast) either at idle, while a workload keeps running on the survivors, or exactly at put.before-backup / put.before-local / del.backups / del.local inside the owner (a hook stops the member at that point and never returns). After white-box detected re-stabilisation every key is read through an embedded client on every survivor and a fresh cluster client and must be the last pre-fault acknowledged value (or not-found for a Delete) or a value of an operation that was open or issued after the fault began; optionally the balancer is then driven to completion and everything verified again; finally Put/Get/Delete scripts on the survivors are checked against a map. Read-repair on and off.",
+   note="Abrupt stop = listener and connections closed, memberlist shut down without leave, contexts cancelled, memory discarded (no persistence exists); memberlist tuned to probe every 200 ms; cases in which membership changed without an injected fault (false suspicion under load) or stabilisation timed out are inconclusive; writes acknowledged after the fault began only widen allowed(key)."),
 }
 
 NOT_BUILT_REASON = "check not built yet (work in progress in this session); not claimed until its monitor is silent on the unchanged tree"
